@@ -637,3 +637,9 @@ def run(chk: Check) -> None:
     d6_conflicts_before_targets(chk)
     d4_fresh_tables(chk)
     d5_no_live_mutation(chk)
+    from rules.shared import late_binding_rule
+    late_binding_rule(chk, "C10-D7", ("yamlpath/merger/merger.py",
+                                      "yamlpath/common/anchors.py"), 25)
+    from rules.shared import no_copies_of_document_nodes_rule
+    no_copies_of_document_nodes_rule(chk, "C10-D8",
+                                     ("yamlpath/merger/merger.py",), 20)
